@@ -12,7 +12,8 @@ RULE = ("multi-line template sets (multi-byte characters, CRLF, tabs) with EXACT
         "invalid logging level), and tags of the block kinds failing themselves (unknown block decorator, inline without a name, a failing subexpression "
         "in the arguments of a partial / partial block / block helper / decorator); the generator records the template name and the 1-based line/column of the tag's '{{' "
         "(for a failing else-chain link: the chain's opening tag) – that record is the oracle; plus compile errors (name and "
-        "position inside the source); non-trivial = every case; distinct by (kind, position)")
+        "position inside the source); the template holding the failing tag registered from a string, from a file, and from a file under dev mode "
+        "(recompiled at render time), and tracked files edited into something that does not compile (the reload error carries the registered name); non-trivial = every case; distinct by (kind, position)")
 DEFINITE_FLOOR = 0.95
 ASSUMPTIONS = []
 FAILS = [("{{nope}}", "MissingVariable", True), ("{{nohelper 1}}", "HelperNotFound", False), ("{{> nopartial}}", "PartialNotFound", False),
@@ -123,7 +124,18 @@ def gen_case(rng, i):
     cfg = {"strict": strict, "escape": "none", "helpers": [{"name": "blk", "kind": "mark", "tag": "B"}],
            "decorators": [{"name": "sethelper", "kind": "sethelper"}]}
     case = session(cfg, [("okp", "P"), ("wrapp", "<\n  {{> @partial-block}}>")] + [(n, tmpls[n]) for n in ("p2", "p1", "main")], {"api": "render", "name": "main"}, DATA)
-    return case, {"name": tname, "line": line, "col": col, "reason": reason, "tag": tag, "where": where, "chain": chain_link}
+    # how the template holding the failing tag was registered: from a string, from a file, or from a file under dev mode
+    # (re-read and recompiled at render time) – the error names the registered name and the tag's position in each of them
+    via = rng.weighted([("string", 4), ("file", 1), ("devfile", 3)])
+    if via != "string":
+        ops = []
+        for o in case["ops"]:
+            if o["op"] == "reg_string" and o["name"] == tname:
+                ops += [{"op": "write_file", "file": "f0", "content": o["src"]}, {"op": "reg_file", "reg": 0, "name": tname, "file": "f0"}]
+            else:
+                ops.append(o)
+        case["ops"] = ([{"op": "set_dev", "reg": 0, "v": True}] if via == "devfile" else []) + ops
+    return case, {"name": tname, "line": line, "col": col, "reason": reason, "tag": tag, "where": where, "chain": chain_link, "via": via}
 
 
 def generate(rng, n, tier="quick"):
@@ -149,6 +161,15 @@ def generate(rng, n, tier="quick"):
                                        ("é\n {{foo 1.}}", "InvalidParam"), ("{{#*inline \"a\"}}{{/x}}", "MismatchingClosedDecorator")]):
         c = {"kind": "session", "regs": [{}], "ops": [{"op": "reg_string", "reg": 0, "name": "dir/t.hbs", "src": src}], "id": "C18-c%d" % k}
         out.append((c, {"compile": True, "reason": reason, "name": "dir/t.hbs", "src": src, "where": "compile", "line": None, "col": None, "tag": src, "chain": False}))
+    # a tracked file edited into something that does not compile: the dev-mode render reports the error under the registered name
+    for k, (src, reason) in enumerate([("a\n{{#if x}}", "InvalidSyntax"), ("{{#if x}}\n{{/each}}", "MismatchingClosedHelper"), ("\u00e9\n {{foo 1.}}", "InvalidParam")]):
+        for nm, inc in (("dir/t.hbs", None), ("q", "x{{> q}}")):
+            ops = [{"op": "set_dev", "reg": 0, "v": True}, {"op": "write_file", "file": "f0", "content": "ok"}, {"op": "reg_file", "reg": 0, "name": nm, "file": "f0"}]
+            if inc:
+                ops.append({"op": "reg_string", "reg": 0, "name": "main", "src": inc})
+            ops += [{"op": "write_file", "file": "f0", "content": src}, {"op": "render", "reg": 0, "api": "render", "name": ("main" if inc else nm), "data": enc({})}]
+            c = {"kind": "session", "regs": [{}], "ops": ops, "id": "C18-rc%d%s" % (k, "i" if inc else "")}
+            out.append((c, {"reload": True, "reason": reason, "name": nm, "src": src, "where": "reload", "line": None, "col": None, "tag": src, "chain": False}))
     # listed witnesses of F9
     w = session({"escape": "none"}, [("p", "\n\n  {{> i}}"), ("main", "{{#*inline \"i\"}}x{{bad 1}}{{/inline}}\n{{> p}}")], {"api": "render", "name": "main"}, {})
     w["id"] = "C18-F9"
@@ -169,6 +190,19 @@ def oracle(case, meta, impl):
         src = meta["src"]
         if l.get("line") is None or not (1 <= l["line"] <= src.count("\n") + 1):
             v.append("compile error position %s:%s not inside the source" % (l.get("line"), l.get("col")))
+        return v
+    if meta.get("reload"):
+        if l.get("r") != "rerr" or l.get("reason") != "TemplateError" or not l.get("args"):
+            return ["expected the reload's compile error, got %s %s" % (l.get("r"), l.get("reason", l.get("out")))]
+        te = l["args"][0]
+        v = []
+        if te.get("reason") != meta["reason"]:
+            v.append("reload compile error kind %s, expected %s" % (te.get("reason"), meta["reason"]))
+        if te.get("name") != meta["name"]:
+            v.append("reload compile error names template %r, the file is registered as %r" % (te.get("name"), meta["name"]))
+        src = meta["src"]
+        if te.get("line") is None or not (1 <= te["line"] <= src.count("\n") + 1):
+            v.append("reload compile error position %s:%s not inside the source" % (te.get("line"), te.get("col")))
         return v
     if l.get("r") != "rerr":
         return ["the planted %s did not fail the render: %s %r" % (meta["tag"], l.get("r"), l.get("out"))]
